@@ -17,6 +17,18 @@ def rapid(name, test, quick, thorough, **kw):
     return d
 
 CHECKS = {
+    "C12": {
+        "level": "fault_enumeration",
+        "exhaustive_phases": ["crash"],
+        "phases": [
+            plain("crash", "TestCrashPoints",
+                  {"shards": 12, "timeout": 400},
+                  {"shards": 16, "timeout": 2400}),
+            plain("timed", "TestTimedKills",
+                  {"shards": 6, "timeout": 400},
+                  {"shards": 12, "timeout": 1800}),
+        ],
+    },
     "C04": {
         "level": "exploration",
         "phases": [
